@@ -533,20 +533,23 @@ class MTVRPSpec(RSpec):
         if self.TW:
             T = 2.0
             tws = []
-            for ch in (("wide",) * 3, ("early", "late", "mid"), ("mid", "mid", "early")):
+            # "over": the window closes so late that a service started near its end gets home after the depot closes
+            # (still sane: a service started at the window's opening gets home in time); "hold" makes the vehicle wait
+            # at a customer long enough that it then reaches an "over" customer inside that critical slot.
+            for ch in (("wide",) * 3, ("early", "late", "mid"), ("over", "hold", "over"), ("mid", "mid", "early"), ("wide", "hold", "over")):
                 tw, st = [[0.0, T]], [0.0]
                 for p, c in zip(pts, ch):
                     d0 = d(C, p)
                     s = 0.125
                     lo, hi = d0 + 1 / 64, T - d0 - s - 1 / 64
-                    w = dict(wide=[lo, hi], early=[lo, lo + 0.125], late=[hi - 0.25, hi], mid=[lo + 0.25, lo + 0.5])[c]
+                    w = dict(wide=[lo, hi], early=[lo, lo + 0.125], late=[hi - 0.25, hi], mid=[lo + 0.25, lo + 0.5], over=[lo, hi + s], hold=[hi - 0.3125, hi])[c]
                     tw.append(w)
                     st.append(s)
                 tws.append((tw, st))
         else:
             tws = [([[0.0, INF]] * 4, [0.0] * 4)]
         if tier == "quick":
-            dem, limits, tws = dem[:2], limits[:2], tws[:2]
+            dem, limits, tws = dem[:2], limits[:2], tws[:3]
         for (lh, bh), L, (twi, (tw, st)) in itertools.product(dem, limits, list(enumerate(tws))):
             iid = f"diamond3-lh{'-'.join(str(int(x * 4)) for x in lh)}-bh{'-'.join(str(int(x * 4)) for x in bh)}-L{L}-tw{twi}"
             out.append((iid, self._inst(pts, lh, bh, L, [list(w) for w in tw], list(st))))
